@@ -46,14 +46,47 @@ def adjOf (self : Nat) (selfRpt : Bool) (lv : Lv) (s : Src) : PFields → Option
        | .group _ => acc)
 
 mutual
-/-- `convertedRowGroup.ColumnChunks()`: a target column that exists in the source is served by the
+/-- BEFORE the repair 2c2062a (kept as a regression fact). `convertedRowGroup.ColumnChunks()`: a target column that exists in the source is served by the
     source chunk as it is (`convertedColumnChunk` only rewrites the column index: no level tables,
     no type conversion); the others by a `missingColumnChunk`. `all` = the fields of the enclosing
     target group. The walk (`stepS`) is the one of the row conversion. -/
-def chunkN (numRows : Nat) : PNode → Rp → Lv → Src → Option (List Triple) → Cols
+def chunkN_before_fix (numRows : Nat) : PNode → Rp → Lv → Src → Option (List Triple) → Cols
   | .leaf, _, lv, s, adj =>
     match s with
     | .on .leaf blk _ => [blk.headD []]
+    | _ => [missingCol numRows lv.tr lv.td adj]
+  | .group tfs, _, lv, s, _ => chunkF_before_fix numRows tfs tfs lv s
+def chunkF_before_fix (numRows : Nat) (all : PFields) : PFields → Lv → Src → Cols
+  | .nil, _, _ => []
+  | .cons nm trp tn tfs, lv, s =>
+    chunkN_before_fix numRows tn trp (stepS nm trp lv s).1 (stepS nm trp lv s).2 (adjOf nm (trp == .rpt) lv s all none)
+      ++ chunkF_before_fix numRows all tfs lv s
+end
+
+/-- the per-column streams of the converted row group's chunks, given the source chunks' streams -/
+def chunkView_before_fix (src tgt : PNode) (cols : Cols) (numRows : Nat) : Cols :=
+  chunkN_before_fix numRows tgt .req lv0 (.on src cols none) none
+
+/-- convert.go `convertedValueReader.ReadValues` since repair 2c2062a: the chunk of a target column
+    that exists in the source is the source chunk as it is when the column is `direct` (no
+    conversion function installed: level tables the identity, same type), else every value read
+    goes through `conversionColumn.convert`: the level tables, the zero fix-up of a column whose max
+    definition level is 0, the typed zero for nulls at the max definition level. No placeholder:
+    an empty chunk stays empty. -/
+def chunkLeaf (lv : Lv) (src : List Triple) : List Triple :=
+  if isDirect lv.R (lv.sr + 1) && isDirect lv.D (lv.sd + 1) then src
+  else zeroCol lv.td (fixup (decide (lv.td > 0)) (convLevels lv src))
+
+mutual
+/-- `convertedRowGroup.ColumnChunks()` as the code stands (repair 2c2062a): a target column that
+    exists in the source is served by the source chunk seen through the column's conversion
+    (`chunkLeaf`); the others by a `missingColumnChunk`. `all` = the fields of the enclosing
+    target group. The walk (`stepS`) is the one of the row conversion. Type conversion is not
+    modelled here (ConvValue.lean). -/
+def chunkN (numRows : Nat) : PNode → Rp → Lv → Src → Option (List Triple) → Cols
+  | .leaf, _, lv, s, adj =>
+    match s with
+    | .on .leaf blk _ => [chunkLeaf lv (blk.headD [])]
     | _ => [missingCol numRows lv.tr lv.td adj]
   | .group tfs, _, lv, s, _ => chunkF numRows tfs tfs lv s
 def chunkF (numRows : Nat) (all : PFields) : PFields → Lv → Src → Cols
